@@ -11,8 +11,7 @@ import sys
 from . import _common
 
 AREA = 'accel'
-MODULES = ['_raw_aes', '_raw_aesni', '_ghash_portable', '_ghash_clmul', '_cpuid_c', '_raw_ecb', '_raw_cbc', '_raw_cfb', '_raw_ofb', '_raw_ctr', '_raw_ocb', '_strxor',
-           '_BLAKE2s', '_SHA256']
+MODULES = None      # rebuild every extension module of setup.py (about 3 s): nothing stale can be reached indirectly
 
 
 def notes():
